@@ -456,11 +456,15 @@ fn render_all(text: &str, case: &Case, strip: bool) -> Option<(EnergyPerformance
     let fac = safe::guard(|| case.fac.build()).ok()?;
     let fac = if strip { safe::guard_plain(|| fac.clone().strip(&comps)).ok()? } else { fac };
     let ep = safe::eval(&comps, &fac, case.k, case.area, case.lm).ok()?;
-    let ep = cte::incorpora_demanda_renovable_acs_nrb(ep);
-    let plain = ep.to_plain();
-    let xml = ep.to_xml();
-    let js = serde_json::to_string_pretty(&ep).ok()?;
-    Some((ep, plain, xml, js))
+    // (a library panic in here is reported by check_case, which makes the same calls one by one under a guard)
+    safe::guard_plain(move || {
+        let ep = cte::incorpora_demanda_renovable_acs_nrb(ep);
+        let plain = ep.to_plain();
+        let xml = ep.to_xml();
+        let js = serde_json::to_string_pretty(&ep).ok()?;
+        Some((ep, plain, xml, js))
+    })
+    .ok()?
 }
 
 fn sorted_lines(s: &str) -> String {
@@ -480,6 +484,10 @@ pub fn check_case(ctx: &Ctx, case: &Case, idx: u64, with_cli: bool, t: &mut Tall
     let Some(ep) = eval(PROP, case, &comps, &fac, case.k, case.area, case.lm, t) else { return };
     let ep = match safe::guard_plain(|| cte::incorpora_demanda_renovable_acs_nrb(ep.clone())) {
         Out::Ok(e) => e,
+        Out::Panic(m) => {
+            t.violation("C17.rendering_panicked", format!("incorpora_demanda_renovable_acs_nrb panicked on a computed result: {m}"), || wit(json!({})));
+            return;
+        }
         _ => ep,
     };
     let acs = safe::guard(|| cte::fraccion_renovable_acs_nrb(&ep));
